@@ -638,7 +638,8 @@ class IntermediateCodeGen(AbstractCodeGen):
                 )
 
             else:
-                hexval = binval and hex(int(binval, 2))[2:] or ''
+                # keep leading zeros: one pair of hex digits per (started) octet
+                hexval = binval and '%0*x' % ((len(binval) + 7) // 8 * 2, int(binval, 2)) or ''
                 outDict.update(value=hexval, format='hex')
 
         # quoted string
